@@ -427,6 +427,19 @@ def homonym_space() -> List[Case]:
             b.feats.update({"homonym", "homonym:nested-enum", "enum"} | ({"enum_width>8"} if max(w1, w2) > 8 else set()))
             fields = [Field(Uint(3), "pad", 1), Field(Named(ma, ma.name), "a", 2), Field(Named(mb, mb.name), "b", 3), Field(Uint(5), "tail", 4)]
             cases.append(b.finish("M" + cid, False, fields, "HOMONYM nested enums Kind:uint%d / Kind:uint%d array=%s" % (w1, w2, arr)))
+            # (a') MESSAGES of the same name nested in sibling messages, each with an array field of the same number
+            # (helper functions / tables named after "<message>_<field number>" must not collide)
+            cid = "h%d" % n
+            n += 1
+            b = CaseBuilder(cid)
+            s1 = MessageDef("Slot", False, (Field(Array(Uint(w1), 2), "v", 1), Field(Bool(), "on", 2)))
+            s2 = MessageDef("Slot", False, (Field(Array(Int(w2), 2), "v", 1), Field(Uint(3), "n", 2)))
+            ma = MessageDef("T" + cid, False, (s1, Field(Array(Named(s1, "Slot"), 2) if arr else Named(s1, "Slot"), "s", 1)))
+            mb = MessageDef("U" + cid, False, (s2, Field(Array(Named(s2, "Slot"), 2) if arr else Named(s2, "Slot"), "s", 1)))
+            b.nested += [ma, mb]
+            b.feats.update({"homonym", "homonym:nested-message"})
+            fields = [Field(Uint(3), "pad", 1), Field(Named(ma, ma.name), "a", 2), Field(Named(mb, mb.name), "b", 3), Field(Uint(5), "tail", 4)]
+            cases.append(b.finish("M" + cid, False, fields, "HOMONYM nested messages Slot{uint%d[2]} / Slot{int%d[2]} array=%s" % (w1, w2, arr)))
             # (b) an imported enum and a local enum of the same name; (c) the same with aliases (signed, so that sign handling is per definition)
             for kind in ("enum", "alias"):
                 cid = "h%d" % n
@@ -447,6 +460,37 @@ def homonym_space() -> List[Case]:
                 fields = [Field(Uint(3), "pad", 1), Field(t1, "a", 2), Field(t2, "b", 3), Field(Uint(5), "tail", 4)]
                 cases.append(b.finish("M" + cid, False, fields, "HOMONYM imported/local %s %d / %d bits array=%s" % (kind, w1, w2, arr)))
     return cases
+
+
+# ----------------------------------------------------------------------------- BIG
+def big_space(codec_only: bool = False) -> List[Case]:
+    """Messages far beyond the other scopes' sizes: > 255 bytes, > 4 096 bytes (32 767 bits), the 65 535-bit maximum."""
+    out = []
+
+    def add(cid, ext, mk, desc, codec=True):
+        if codec_only and not codec:
+            return
+        b = CaseBuilder(cid)
+        b.feats.add("big")
+        out.append(b.finish("M" + cid, ext, mk(b), "BIG " + desc))
+
+    add("b0", False, lambda b: [Field(Array(Byte(), 256), "a", 1)], "byte[256]")
+    add("b1", False, lambda b: [Field(Array(Uint(64), 1023), "a", 1), Field(Uint(7), "t", 2)], "uint64[1023] + uint7 (65 479 bits)")
+    add("b2", False, lambda b: [Field(Array(Bool(), 65535), "a", 1)], "bool[65535] (the maximum: 65 535 bits)", codec=False)
+    add("b3", True, lambda b: [Field(Array(Byte(), 300, True), "a", 1)], "extensible message with byte[300]'")
+    add("b4", False, lambda b: [Field(Array(Int(33), 100), "a", 1)], "int33[100] (3 300 bits, 412.5 bytes)")
+
+    def nested(b):
+        inner = MessageDef("I" + b.cid, False, (Field(Array(Byte(), 255), "p", 1), Field(Bool(), "q", 2)))
+        r = b.place(inner, "top")
+        return [Field(r, "x", 1), Field(Array(r, 3), "y", 2), Field(Uint(1), "z", 3)]
+
+    add("b5", False, nested, "message of 2 041 bits used scalar and [3] (8 165 bits)")
+    add("b6", False, lambda b: [Field(Uint(3), "head", 1), Field(Array(Uint(16), 2100), "samples", 2), Field(Uint(7), "tail", 3)], "uint3 + uint16[2100] + uint7 (33 610 bits)")
+    add("b7", False, lambda b: [Field(Array(Int(32), 1500), "a", 1), Field(Bool(), "t", 2)], "int32[1500] + bool (48 001 bits)")
+    add("b8", False, lambda b: [Field(Array(Byte(), 8000), "a", 1)], "byte[8000] (64 000 bits)")
+    add("b9", False, lambda b: [Field(Uint(5), "head", 1), Field(Array(Uint(12), 3000), "a", 2)], "uint5 + uint12[3000] (36 005 bits, element by element)")
+    return out
 
 
 def batches(cases: List[Case], size: int) -> List[List[Case]]:
